@@ -43,31 +43,25 @@ class Verdict:
 
 
 def stale_rst_signature(t, idx):
-    """strict acceptor rejected group idx with 'not registered': is it the RST-for-an-older-NON
-    case?  -> description or None"""
-    g = t.groups[idx]
-    outs = g[1]
-    # the first output of that group the strict acceptor can object to is not known exactly;
-    # accept the signature if ANY notified observer of this group had an older NON of the current
-    # history answered by an RST that libcoap ignored
+    """The strict acceptor differs from the libcoap-rule acceptor in exactly one clause: on an RST
+    it also removes the observer when the RST names ANY notification of its current registration
+    (Accept.v, ac_rst_strict).  So when the libcoap-rule acceptor accepts the whole history and
+    the strict one rejects at group idx, the first divergence is an RST op before idx that names a
+    notification which was neither in flight nor the observer's latest one.  Find it."""
     sent = {}                     # ordinal -> (r, c, tok, con)
-    for gg in t.groups[:idx + 1]:
+    latest = {}                   # (r, c, tok) -> ordinal of its latest notification
+    for gi, gg in enumerate(t.groups[:idx + 1]):
+        if gg[0].startswith("T:") and gi < idx:
+            _, c, k = gg[0].split(":")
+            k = int(k)
+            if k in sent and sent[k][1] == c and latest.get(sent[k][:3]) != k:
+                return ("RST for the older %s notification #%d (observer %s token %s) was ignored"
+                        % ("confirmable" if sent[k][3] else "non-confirmable", k, c, sent[k][2]))
         for o in gg[1]:
             if o[0] in "NE":
                 f = o[1:].split(":")
                 sent[int(f[0])] = (f[1], f[2], f[3], f[-1] == "C")
-    targets = set()
-    for o in outs:
-        if o[0] in "NE":
-            f = o[1:].split(":")
-            targets.add((f[1], f[2], f[3]))
-    for gg in t.groups[:idx]:
-        if gg[0].startswith("T:"):
-            _, c, k = gg[0].split(":")
-            k = int(k)
-            if k in sent and (sent[k][0], sent[k][1], sent[k][2]) in targets and sent[k][1] == c:
-                return "RST for the older %s notification #%d (observer %s token %s) was ignored" % (
-                    "confirmable, already answered" if sent[k][3] else "non-confirmable", k, c, sent[k][2])
+                latest[(f[1], f[2], f[3])] = int(f[0])
     return None
 
 
@@ -156,7 +150,7 @@ def judge(case, trace, mo, acc_l, acc_s, consts_expected=None):
     if acc_s.startswith("REJECT"):
         _, idx, code = acc_s.split()
         idx, code = int(idx), int(code)
-        sig = stale_rst_signature(t, idx) if code == 2 else None
+        sig = stale_rst_signature(t, idx)
         v.kind = "strict"
         v.what = ("as stated the property is violated at op %d (%s): %s" %
                   (idx, t.groups[idx][0] if idx < len(t.groups) else "?", REASONS.get(code, str(code))))
@@ -228,7 +222,7 @@ def main(run):
     model = vlib.build_model()
     drv = vlib.build_driver("h_observe", ["h_observe.c"], wraps=G.WRAPS)
     r = tie.rng_for(run, "c11")
-    n = 1400 if run.tier == "quick" else 30000
+    n = 5000 if run.tier == "quick" else 120000
     lines = list(vlib.read_corpus("C11"))
     kinds = ["corpus"] * len(lines)
     for i in range(n):
